@@ -142,7 +142,9 @@ def generate(rng, tier, index):
             leak = [rng.choice([0.0, 1.0, 0.5, rng.random()]) for _ in range(m)]
         # uniforms: a spec per column, resolved against the purity at execution time
         U = [rng.choice(["zero", "below", "above", "adjacent_below", "adjacent_above", "equal", "random", "random", "almost_one"]) for _ in range(n)]
-        return {"kind": kind, "dtype": dtype, "J": J, "leak": leak, "U": U, "U_random": [rng.random() for _ in range(n)]}
+        if rng.random() < 0.15:
+            J[rng.randrange(m)][rng.randrange(n)] = -0.0
+        return {"kind": kind, "dtype": dtype, "J": J, "leak": leak, "U": U, "U_random": [rng.random() for _ in range(n)], "f": rng.choice([None, None, "square", "smoothstep"]), "form": rng.choice(["plain", "plain", "noncontig", "requires_grad"])}
     m = rng.choice([1, 2, 3, 4, 6])
     n = rng.choice([m, m + 1, m + 3])
     J = [[rng.gauss(0, 1) for _ in range(n)] for _ in range(m)]
@@ -202,13 +204,15 @@ class Chooser:
 def execute(scn):
     dtype = torch.float32 if scn["dtype"] == "float32" else torch.float64
     eps = 1.1920929e-07 if scn["dtype"] == "float32" else 2.220446049250313e-16
-    Jt = torch.tensor(scn["J"], dtype=dtype)
-    J = Jt.to(torch.float64).numpy()
+    from ..aggs import GD_F, matrix_form
+
+    Jt = matrix_form(torch.tensor(scn["J"], dtype=dtype), scn.get("form", "plain"))
+    J = Jt.detach().to(torch.float64).numpy()
     m, n = J.shape
     stats, events, viols, sets = {"api_calls": 1}, [], [], {}
     kind = scn["kind"]
     nontrivial = True
-    before = Jt.clone()
+    before = Jt.detach().clone()
     if kind == "pcgrad":
         A = make_agg({"kind": "PCGrad"})
         seam = seams.RngSeam(Chooser(scn))
@@ -285,9 +289,10 @@ def execute(scn):
                 viols.append({"clause": "pcgrad_outside_candidate_set", "step": 0, "details": {"distance_to_nearest_candidate": best, "tol": tol, "m": m}, "key": {}})
     elif kind == "graddrop":
         leak = scn.get("leak")
-        A = make_agg({"kind": "GradDrop", "leak": leak}, dtype)
+        A = make_agg({"kind": "GradDrop", "leak": leak, "f": scn.get("f")}, dtype)
         with torch.no_grad():
             Pt = 0.5 * (torch.ones_like(Jt[0]) + Jt.sum(dim=0) / Jt.abs().sum(dim=0))
+            Pt = GD_F[scn.get("f")](Pt)  # the purity passed through the user's monotone f
         P = [float(x) for x in Pt]
         seam = seams.RngSeam(Chooser(scn, P))
         with seam.armed():
@@ -384,7 +389,7 @@ def execute(scn):
                 viols.append({"clause": "random_output_not_a_convex_combination", "step": 0, "details": {"recovered_weights": [float(x) for x in w_rec], "tol": wt}, "key": {}})
             if seam_ok and (w_rec <= 0).any() and (w_rec > -wt).all():
                 stats["reach.random_positivity_below_resolution"] = 1
-    if not torch.equal(before, Jt):
+    if not torch.equal(before, Jt.detach()):
         viols.append({"clause": "input_modified", "step": 0, "details": {"kind": kind}, "key": {}})
     events.append([kind, digest(out.detach().numpy().tobytes())])
     sets["kind"] = [kind]
